@@ -1,6 +1,7 @@
 import ExaModel.Lemmas.OpenCodecRefuse
 import ExaModel.Lemmas.NegoRefuse
 import ExaModel.Lemmas.NegoPerm
+import ExaModel.Lemmas.NegoWf
 import ExaModel.Generated.CapTable
 set_option linter.unusedSimpArgs false
 set_option linter.unusedVariables false
@@ -26,6 +27,11 @@ any fixed fields) and state every parameter on the raw capability lists.
 Strength: every clause is proved in full (F4 — local AS and the internal-peer identifier check
 read from the 2-octet field — and the 2/0 answer to an unrecognised optional parameter were
 repaired in /repo; the witnesses are kept below as examples of the repaired behaviour).
+Our OPEN: `advertises_exactly_config` (negotiated views) and `advertises_every_capability` (every
+capability `Capabilities.new` emits: advertised iff enabled, with exactly the configured value);
+`cfgOK` is the closed-form class of configurations (`cfgOK_wf`: each has an OPEN with a wire form,
+`our_open_roundtrip`: it survives encode/decode in either format); host/domain names longer than
+64 octets (accepted by the grammar up to 255) are advertised cut to 64 — stated, not hidden.
 ADD-PATH octets outside 0..3 are read by the code as a bit mask (RFC 7911: SHOULD be ignored):
 `addpath_send_iff`/`addpath_receive_iff` state the bit-mask behaviour for all octets, the `_rfc`
 forms the RFC reading under `validSR`; `addpath_octet_5_deviation` is the witness.
@@ -163,19 +169,28 @@ theorem open_roundtrip_layout (ext : Bool) (myAs hold bgpId : Nat) (gs : List (L
 theorem open_roundtrip (o : OpenMsg) (h : wfOpen o = true) : decodeOpen (encodeOpen o) = .ok o :=
   decodeOpen_encode o h
 
-/-- The OPEN we send survives encode/decode unchanged, for every configuration whose OPEN has a
-    wire form (fields in range; see `demoBig` for one above 255 octets). -/
-theorem our_open_roundtrip (cfg : Cfg) (h : wfOpen (ourOpen cfg) = true) :
-    decodeOpen (encodeOpen (ourOpen cfg)) = .ok (ourOpen cfg) :=
-  decodeOpen_encode _ h
+/-- **Every configuration in the closed-form class `cfgOK` has an OPEN with a wire form.** `cfgOK`
+    (decidable, `Model/Nego.lean`) asks: local AS < 2³², hold time < 2¹⁶, identifier < 2³², every
+    family AFI < 2¹⁶ / SAFI < 2⁸ and at most 62 families, ADD-PATH direction an octet, paths-limit
+    values < 2¹⁶ (at most 50 of them), host/domain names ASCII, software string valid UTF-8 of at most
+    252 octets.  Nothing else: every capability then fits one parameter of either format and the
+    whole block stays below 65536 octets (at most `families + 15` capabilities of ≤ 258 octets). -/
+theorem cfgOK_wf (cfg : Cfg) (h : cfgOK cfg = true) : wfOpen (ourOpen cfg) = true :=
+  Open.cfgOK_wf cfg h
 
-/-- **The OPEN we send advertises exactly what the configuration enables** — on every view the
-    session parameters are computed from: fixed fields; MP families = configured families;
-    ASN4 = the real local AS iff enabled; ADD-PATH octet of a family = the configured direction on
-    the configured ADD-PATH families (of those the implementation supports), 0 elsewhere; extended
-    next hop = configured ∩ supported; (enhanced) route refresh and extended message iff enabled.
-    (Graceful restart, hostname, software version, operational, link-local, multisession and
-    paths-limit are informational here: covered by the correspondence and oracle runs.) -/
+/-- **The OPEN we send survives encode/decode unchanged**, for every configuration in `cfgOK`,
+    whatever its size — one-octet form below 255 octets of parameters, RFC 9072 form from 255 on
+    (`demoBig`: 40 families, 374 octets). The harness checks `cfgOK` on every configuration the real
+    parser / `NeighborSettings.validate` accepts. -/
+theorem our_open_roundtrip (cfg : Cfg) (h : cfgOK cfg = true) :
+    decodeOpen (encodeOpen (ourOpen cfg)) = .ok (ourOpen cfg) :=
+  decodeOpen_encode _ (Open.cfgOK_wf cfg h)
+
+/-- **The OPEN we send advertises exactly what the configuration enables** — the views the session
+    parameters are computed from: fixed fields; MP families = configured families; ASN4 = the real
+    local AS iff enabled; ADD-PATH octet of a family = the configured direction on the configured
+    ADD-PATH families (of those the implementation supports), 0 elsewhere; extended next hop =
+    configured ∩ supported; (enhanced) route refresh and extended message iff enabled. -/
 theorem advertises_exactly_config (cfg : Cfg) :
     (ourOpen cfg).version = 4 ∧ (ourOpen cfg).myAs = Open.trans cfg.localAs ∧ (ourOpen cfg).hold = cfg.hold
       ∧ (ourOpen cfg).bgpId = cfg.routerId
@@ -189,6 +204,98 @@ theorem advertises_exactly_config (cfg : Cfg) :
       ∧ (Cap.extMsg ∈ (ourOpen cfg).caps ↔ cfg.extMsg = true) :=
   ⟨rfl, rfl, rfl, rfl, ourCaps_mp cfg, ourCaps_asn4Of cfg, ourCaps_srOf cfg, ourCaps_nexthopOf cfg,
     ourCaps_refresh cfg, ourCaps_enhanced cfg, ourCaps_extMsg cfg⟩
+
+/-- **…capability by capability, for EVERY capability `Capabilities.new` can emit: advertised iff
+    enabled, with exactly the configured value** (membership in the emitted list, for any value):
+    * ASN4 `v`: enabled and `v` = the local AS; next hop / ADD-PATH: enabled and the entries are the
+      supported triples / families that are configured (ADD-PATH: each with the configured direction);
+    * paths-limit: ADD-PATH on, and the entries are the configured non-zero limits of the configured,
+      supported ADD-PATH families on which we advertise *receive* (none ⇒ no capability);
+    * graceful restart: enabled; restart flags 0 (`restarted = False`), time = the configured time —
+      the hold time when that is 0 (`Neighbor.infer`) — modulo 4096, every configured family with
+      the forwarding bit (0x80);
+    * hostname: the host name is not empty; host and domain cut to 64 octets;
+    * software version: enabled, the string `Software()` builds;
+    * operational, link-local next hop, (enhanced) route refresh, extended message: iff enabled;
+    * multisession (code 68): enabled; the two instances the code emits, values `00` and `01`;
+    * never: Cisco route refresh (128), Cisco multisession (131), an unknown code. -/
+theorem advertises_every_capability (cfg : Cfg) :
+    (∀ v, Cap.asn4 v ∈ (ourOpen cfg).caps ↔ cfg.asn4 = true ∧ v = cfg.localAs)
+    ∧ (∀ es, Cap.nexthop es ∈ (ourOpen cfg).caps ↔
+        cfg.nexthopOn = true ∧ es = nexthopAllowed.filter (fun t => cfg.nexthops.contains t))
+    ∧ (∀ es, Cap.addpath es ∈ (ourOpen cfg).caps ↔
+        cfg.addPath ≠ 0 ∧ es = (addPathAllowed.filter (fun f => cfg.addpaths.contains f)).map (famTriple cfg.addPath))
+    ∧ (∀ es, Cap.pathsLimit es ∈ (ourOpen cfg).caps ↔ cfg.addPath ≠ 0 ∧ ourPathsLimit cfg ≠ [] ∧ es = ourPathsLimit cfg)
+    ∧ (∀ a s l, (a, s, l) ∈ ourPathsLimit cfg ↔
+        ((a, s), l) ∈ cfg.pathsLimit ∧ (a, s) ∈ addPathAllowed ∧ (a, s) ∈ cfg.addpaths ∧ cfg.addPath % 2 = 1 ∧ 0 < l)
+    ∧ (∀ fl t fams, Cap.graceful fl t fams ∈ (ourOpen cfg).caps ↔
+        ∃ rt, cfg.graceful = some rt ∧ fl = 0 ∧ t = (if rt = 0 then cfg.hold else rt) % 4096
+          ∧ fams = cfg.families.map (fun f => (f.1, f.2, 128)))
+    ∧ (∀ h d, Cap.hostname h d ∈ (ourOpen cfg).caps ↔ cfg.host ≠ [] ∧ h = cfg.host.take 64 ∧ d = cfg.domain.take 64)
+    ∧ (∀ v, Cap.software v ∈ (ourOpen cfg).caps ↔ cfg.software = true ∧ v = cfg.swVersion)
+    ∧ (Cap.operational ∈ (ourOpen cfg).caps ↔ cfg.operational = true)
+    ∧ (Cap.linkLocal ∈ (ourOpen cfg).caps ↔ cfg.linkLocal = true)
+    ∧ (∀ c v, Cap.multisession c v ∈ (ourOpen cfg).caps ↔ cfg.multiSession = true ∧ c = false ∧ (v = [0] ∨ v = [1]))
+    ∧ Cap.refreshCisco ∉ (ourOpen cfg).caps ∧ (∀ c v, Cap.unknown c v ∉ (ourOpen cfg).caps) :=
+  ⟨ourCaps_asn4_mem cfg, ourCaps_nexthop_mem cfg, ourCaps_addpath_mem cfg, ourCaps_pathsLimit_mem cfg,
+    mem_ourPathsLimit cfg, ourCaps_graceful_mem cfg, ourCaps_hostname_mem cfg, ourCaps_software_mem cfg,
+    ourCaps_operational cfg, ourCaps_linkLocal cfg, ourCaps_multisession_mem cfg,
+    (ourCaps_never cfg).1, (ourCaps_never cfg).2.1⟩
+
+/-- One MP capability per configured family and at most 15 others. -/
+theorem our_open_size (cfg : Cfg) : (ourOpen cfg).caps.length ≤ cfg.families.length + 15 :=
+  ourCaps_length cfg
+
+/-! ## The peer side of the informational capabilities -/
+
+/-- **Operational** messages are in force iff both sides advertise the capability; the same for
+    **link-local next hop**. -/
+theorem operational_both (o t : OpenMsg) :
+    ((negotiate o t).operational = true ↔ Cap.operational ∈ o.caps ∧ Cap.operational ∈ t.caps)
+    ∧ ((negotiate o t).linkLocal = true ↔ Cap.linkLocal ∈ o.caps ∧ Cap.linkLocal ∈ t.caps) := by
+  rw [negotiate_operational, negotiate_linkLocal]
+  simp [List.contains_iff_mem]
+
+/-- **Multisession (draft), not configured**: whatever the peer sends, nothing is negotiated and
+    nothing is refused on its account. -/
+theorem multisession_off (cfg : Cfg) (t : OpenMsg) (h : cfg.multiSession = false) :
+    (negotiate (ourOpen cfg) t).multisession = .no := by
+  rw [negotiate_multisession, show (ourOpen cfg).caps = ourCaps cfg from rfl, (ourCaps_isMs cfg).1, (ourCaps_isMs cfg).2, h]
+  simp
+
+/-- **Multisession configured, peer does not advertise it (code 68)**: refused with 2/9 — the
+    verdict `validate` returns when no RFC fault comes first. -/
+theorem multisession_mandatory (cfg : Cfg) (t : OpenMsg) (h : cfg.multiSession = true)
+    (ht : ∀ v, Cap.multisession false v ∉ t.caps) :
+    (negotiate (ourOpen cfg) t).multisession = .err 2 9 := by
+  have hn : t.caps.any (isMs false) = false := by
+    cases h2 : t.caps.any (isMs false) with
+    | false => rfl
+    | true => obtain ⟨v, hv⟩ := (any_isMs_iff _ _).1 h2; exact absurd hv (ht v)
+  rw [negotiate_multisession, show (ourOpen cfg).caps = ourCaps cfg from rfl, (ourCaps_isMs cfg).1, (ourCaps_isMs cfg).2, h, hn]
+  simp
+
+/-- **Multisession on both sides**: agreed iff the peer's MP families, in the order the dict holds
+    them, are ours; 2/8 otherwise; a peer without any MP capability makes `_negotiate` raise
+    (`KeyError`, reported to C03). -/
+theorem multisession_both (cfg : Cfg) (t : OpenMsg) (h : cfg.multiSession = true)
+    (v : Bytes) (ht : Cap.multisession false v ∈ t.caps) :
+    (negotiate (ourOpen cfg) t).multisession =
+      match (capSet t.caps).mp with
+      | none => .crash
+      | some rm => if (capSet (ourOpen cfg).caps).mp.getD [] ≠ rm then .err 2 8 else .yes := by
+  have hn : t.caps.any (isMs false) = true := (any_isMs_iff _ _).2 ⟨v, ht⟩
+  rw [negotiate_multisession, show (ourOpen cfg).caps = ourCaps cfg from rfl, (ourCaps_isMs cfg).1, (ourCaps_isMs cfg).2, h, hn]
+  simp
+  rfl
+
+/-- **A repeated graceful-restart capability: the last one replaces the earlier ones**; restart
+    flags are the top 4 bits, the time the low 12, and only the forwarding bit (0x80) of each
+    family's flags is kept (`Graceful.set`). -/
+theorem graceful_last_wins (caps : List Cap) (fl t : Nat) (fams : List Triple) :
+    (capSet (caps ++ [Cap.graceful fl t fams])).graceful
+      = some (fl, t % 4096, (fams.map fwdBit).foldl insertEntry []) := by
+  simp [capSet, List.foldl_append, CapSet.add]
 
 /-! ## Order and repetition of the peer's capabilities -/
 
@@ -344,6 +451,7 @@ def demoPeer : OpenMsg :=
     caps := [.mp 2 1, .addpath [(1, 1, 2)], .mp 1 1, .mp 2 1, .asn4 65001, .enhanced, .refresh,
              .addpath [(1, 1, 1), (2, 1, 3)], .nexthop [(1, 1, 2), (1, 4, 2)], .unknown 99 [1, 2], .extMsg] }
 
+example : cfgOK demoCfg = true := by decide
 example : wfOpen (ourOpen demoCfg) = true := by decide
 example : wfOpen demoPeer = true := by decide
 example : decodeOpen (encodeOpen demoPeer) = .ok demoPeer := by decide +kernel
@@ -359,10 +467,35 @@ example : validSR demoPeer.caps ∧ consistentAs demoPeer := by
   · intro a ha; simp [demoPeer, asn4Of] at ha; subst ha; decide
 example : validateOpen demoCfg (negotiate (ourOpen demoCfg) demoPeer) demoPeer = none := by decide
 
+/-- every capability `Capabilities.new` can emit, at once (graceful restart time 0 ⇒ hold time 180) -/
+def demoFull : Cfg :=
+  { localAs := 4200000000, peerAs := 65001, routerId := 16843009, hold := 180, families := [(1, 1), (2, 1), (1, 128)],
+    nexthopOn := true, nexthops := [(1, 1, 2), (1, 128, 2), (2, 1, 1)], addPath := 3, addpaths := [(1, 1), (2, 1), (25, 65)],
+    pathsLimit := [((1, 1), 10), ((2, 1), 0), ((1, 4), 7)], graceful := some 0, routeRefresh := true, operational := true,
+    host := [114, 49], domain := [110, 101, 116], software := true, swVersion := [69, 120, 97], linkLocal := true,
+    multiSession := true }
+example : cfgOK demoFull = true := by decide
+example : (ourOpen demoFull).caps =
+    [.mp 1 1, .mp 2 1, .mp 1 128, .asn4 4200000000, .nexthop [(1, 1, 2), (1, 128, 2)], .addpath [(1, 1, 3), (2, 1, 3)],
+     .pathsLimit [(1, 1, 10)], .graceful 0 180 [(1, 1, 128), (2, 1, 128), (1, 128, 128)], .refresh, .enhanced,
+     .operational, .extMsg, .hostname [114, 49] [110, 101, 116], .software [69, 120, 97], .linkLocal,
+     .multisession false [0], .multisession false [1]] := by decide
+example : decodeOpen (encodeOpen (ourOpen demoFull)) = .ok (ourOpen demoFull) := by decide +kernel
+example : (capSet (ourOpen demoFull).caps).graceful = some (0, 180, [((1, 1), 128), ((2, 1), 128), ((1, 128), 128)]) := by decide
+/-- a peer that agrees on multisession (same MP list), operational, link-local -/
+def msPeer (caps : List Cap) : OpenMsg := { version := 4, myAs := 65001, hold := 90, bgpId := 33686018, caps := caps }
+example :
+    let t := msPeer [.mp 1 1, .mp 2 1, .mp 1 128, .multisession false [], .operational, .linkLocal, .asn4 65001]
+    (negotiate (ourOpen demoFull) t).multisession = .yes ∧ (negotiate (ourOpen demoFull) t).operational = true
+      ∧ (negotiate (ourOpen demoFull) t).linkLocal = true := by decide
+example : (negotiate (ourOpen demoFull) (msPeer [.mp 2 1, .mp 1 1, .multisession false []])).multisession = .err 2 8 := by decide
+example : validateOpen demoFull (negotiate (ourOpen demoFull) (msPeer [.mp 1 1])) (msPeer [.mp 1 1]) = some ⟨2, 9⟩ := by decide
+
 /-- An OPEN above the RFC 9072 switch: 40 families (320 octets of parameters) — extended format. -/
 def demoBig : Cfg :=
   { localAs := 65000, routerId := 16843009, hold := 180,
     families := (List.range 40).map (fun i => (1 + i % 2, 1 + i / 2)) }
+example : cfgOK demoBig = true := by decide
 example : useExtended (ourOpen demoBig).caps = true := by decide +kernel
 example : (encodeOpen (ourOpen demoBig)).length = 9 + 4 + 40 * 9 + 9 + 5 := by decide +kernel
 example : wfOpen (ourOpen demoBig) = true := by decide +kernel
